@@ -38,6 +38,36 @@ CLAIMED['C08'] = (
     'One series library (2 treatment x 3 control versions, 40 points) per seed; exact value comparison. ' + TRUST,
     'DESIGN.md section 4 C08')
 
+_MM = ('MMTrace.tla (contract over MMDefs.tla) batch-validates traces recorded from the real searches; numeric facts from the '
+       'independent oracle; design-level models MMImplX/MMImplG checked by TLC')
+_MMNOTE = ('Oracle (numpy/scipy, never imports the library) supplies ranks of score tuples, budget verdicts, optimistic budget '
+           'classes, impact order; scipy t/F quantiles trusted; float thresholds judged only in generic position (margin 1e-9); '
+           'design space = designs over the admitted geos. ' + TRUST)
+CLAIMED['C01'] = (_MM, 'Every design returned by either search on every generated instance (1-6 geos, all seven eligibility classes + '
+                  'absent geos, all constraint subsets, n_geos_max) is judged Legal by TLC against the eligibility table given to the driver.',
+                  _MMNOTE, 'DESIGN.md section 4 C01')
+CLAIMED['C02'] = (_MM, 'Every returned design is judged against each specified constraint by exact integer cross-multiplication in TLA+ '
+                  '(sizes, geo ratio incl. bounds, volume ratio, either share reading) and the oracle budget verdict.',
+                  _MMNOTE, 'DESIGN.md section 4 C02')
+CLAIMED['C03'] = (_MM, 'For every instance TLC computes the obligation set (feasible under both share readings, not omittable by the '
+                  'stated budget licence) by brute force over all designs on the admitted geos and requires distinct results, '
+                  'min(k, |obligations|) of them, and nothing strictly better omitted.', _MMNOTE, 'DESIGN.md section 4 C03')
+CLAIMED['C04'] = (_MM, 'At every position of every result list the attached series, diagnostics and score must be those the oracle '
+                  'recomputes from the raw panel for exactly the reported geo sets.', _MMNOTE, 'DESIGN.md section 4 C04')
+CLAIMED['C09'] = (_MM, 'Both searches on degenerate / tiny / contradictory instances: any exception other than ValueError is a recorded '
+                  'crash with file:line, and the contract has no such action.', _MMNOTE, 'DESIGN.md section 4 C09')
+CLAIMED['C13'] = (_MM, 'Greedy results must lie in the feasible set over admitted geos computed by TLC, never rank above its optimum or above '
+                  'the recorded exhaustive best, and be empty when nothing is feasible.', _MMNOTE, 'DESIGN.md section 4 C13')
+CLAIMED['C16'] = ('TLA+ spec Eligibility.tla (validation as a sequence of checks refining the declarative Accept; seven classes from the row triple); '
+                  'all tables <=3 rows x 8 triples, single defects and all ordered subsets enumerated by TLC and replayed into GeoEligibility',
+                  'Exhaustive within bounds: accept/reject and all eleven assignment sets for every table, every ordered subset (incl. empty), '
+                  'IDs and indices, four ID presentations.', 'Only the listed structural defects are explored. ' + TRUST, 'DESIGN.md section 4 C16')
+CLAIMED['C17'] = ('TLA+ spec Params.tla (sixteen per-field checks in code order refining the documented domain); boundary grid enumerated by TLC '
+                  'and replayed into TBRMMDesignParameters with math.nextafter neighbours',
+                  'Every (field, grid point) with others valid, every pair of faults in two fields, defaults and equality cases; success XOR '
+                  'ValueError exactly as the spec says.', 'Equal-ended ranges and int-for-float are left open (either outcome); bool / numpy '
+                  'scalars outside the grid. ' + TRUST, 'DESIGN.md section 4 C17')
+
 PENDING_REASON = 'check not built yet in this round (planned, see DESIGN.md section 10); not claimed until it runs'
 
 
